@@ -120,7 +120,7 @@ def aipwArmMean (arm : Bool) (l : List (Row F)) (Q : Row F → Bool → F) (g1 g
 
 /-- `np.nanmean(y1 - y0)` / the NaN-masked `np.average(y1 - y0, weights)`: mean of the difference over
     the rows with an observed outcome (the difference branch of `aipw_calculator`) -/
-def aipwDiff (l : List (Row F)) (Q : Row F → Bool → F) (g1 g0 : Row F → F) : F :=
+def aipwDiffW (l : List (Row F)) (Q : Row F → Bool → F) (g1 g0 : Row F → F) : F :=
   sumIf (fun r => r.obs) (fun r => r.w * (aipwPseudo true Q g1 g0 r - aipwPseudo false Q g1 g0 r)) l
     / W (fun r => r.obs) l
 
